@@ -72,6 +72,67 @@ func obsAny(g graph.Graph) (tr.E, string) {
 
 func graphOfJ(rep string, g gJ) graph.EditableGraph { return newGraph(rep, g.N, g.E) }
 
+// sparse6Shuffled writes g in sparse6 the way the format allows but the library's encoder never does: the edges {x, v}, x < v, grouped by
+// v in increasing order, the x of one v in random order and now and then twice (n <= 62, no special padding case needed: the harness
+// always ends with a pair that moves v to n-1 when n is 2, 4, 8 or 16).
+func sparse6Shuffled(r *rand.Rand, g gJ) []int {
+	n := g.N
+	k := 0
+	for (1 << uint(k)) < n {
+		k++
+	}
+	by := map[int][]int{}
+	for _, rk := range g.E {
+		x, v := obs.RankToPair(rk)
+		by[v] = append(by[v], x)
+	}
+	var bits []int
+	put := func(b, x int) {
+		bits = append(bits, b)
+		for i := k - 1; i >= 0; i-- {
+			bits = append(bits, (x>>uint(i))&1)
+		}
+	}
+	cur := 0
+	for v := 0; v < n; v++ {
+		xs := by[v]
+		if len(xs) == 0 {
+			continue
+		}
+		r.Shuffle(len(xs), func(a, b int) { xs[a], xs[b] = xs[b], xs[a] })
+		if r.Intn(3) == 0 {
+			xs = append(xs, xs[r.Intn(len(xs))])
+		}
+		if v > cur+1 {
+			put(1, v) // x > v: set v
+			cur = v
+		}
+		for i, x := range xs {
+			if i == 0 && v == cur+1 {
+				put(1, x)
+				cur = v
+			} else {
+				put(0, x)
+			}
+		}
+	}
+	if n > 1 && cur < n-1 && (n == 2 || n == 4 || n == 8 || n == 16) {
+		put(1, n-1) // move to the last vertex (x = n-1 > v sets v, or the pair is an ignored loop) so that 1-padding cannot be read as a loop there
+	}
+	for len(bits)%6 != 0 {
+		bits = append(bits, 1)
+	}
+	out := []int{58, n + 63}
+	for i := 0; i < len(bits); i += 6 {
+		c := 0
+		for j := 0; j < 6; j++ {
+			c = c<<1 | bits[i+j]
+		}
+		out = append(out, c+63)
+	}
+	return out
+}
+
 func scribble(s []int) {
 	for i := range s {
 		s[i] = s[i]*7 + 3
@@ -169,6 +230,16 @@ func construct(in consIn) (g graph.Graph, mutate func(), again func() graph.Grap
 		h := graphOfJ(in.Rep, in.G)
 		graph.Contract(h, p[0], p[1])
 		return h, nil, nil
+	case "ContractSplit": // two transformations on the SAME graph object: Contract(g, p0, p1), then SplitEdge(g, p2, p3)
+		h := graphOfJ(in.Rep, in.G)
+		graph.Contract(h, p[0], p[1])
+		graph.SplitEdge(h, p[2], p[3])
+		return h, nil, nil
+	case "SplitContract":
+		h := graphOfJ(in.Rep, in.G)
+		graph.SplitEdge(h, p[0], p[1])
+		graph.Contract(h, p[2], p[3])
+		return h, nil, nil
 	case "PruferDecodeOf":
 		return graph.PruferDecode(m), func() { scribble(m) }, nil
 	case "MulticodeDecodeOf":
@@ -180,6 +251,12 @@ func construct(in consIn) (g graph.Graph, mutate func(), again func() graph.Grap
 		}, nil
 	case "Graph6DecodeOf":
 		g, err := graph.Graph6Decode(graph.Graph6Encode(graphOfJ("dense", in.G)))
+		if err != nil {
+			panic("decode error: " + err.Error())
+		}
+		return g, nil, nil
+	case "Sparse6DecodeShuffled": // a format-valid sparse6 string of in.G written by the harness: smaller endpoints in any order, some edges twice
+		g, err := graph.Sparse6Decode(string(i2b(m)))
 		if err != nil {
 			panic("decode error: " + err.Error())
 		}
@@ -402,8 +479,22 @@ func consGrid(c *Ctx) []consIn {
 		add(consIn{Fam: "Contract", P: []int{a, b}, G: gj, Rep: rep})
 		if a != b {
 			add(consIn{Fam: "SplitEdge", P: []int{a, b}, G: gj, Rep: rep})
+			// chains on one graph object (a transformation leaves the representation in a state the next one starts from)
+			if n >= 3 {
+				c, d := r.Intn(n-1), r.Intn(n-1) // vertices of the contracted graph
+				if c != d {
+					add(consIn{Fam: "ContractSplit", P: []int{a, b, c, d}, G: gj, Rep: rep})
+				}
+				e, f := r.Intn(n+1), r.Intn(n+1) // vertices of the split graph
+				if e != f {
+					add(consIn{Fam: "SplitContract", P: []int{a, b, e, f}, G: gj, Rep: rep})
+				}
+			}
 		}
 		add(consIn{Fam: "MulticodeDecodeOf", G: gj})
+		if gj.N >= 2 && gj.N <= 62 {
+			add(consIn{Fam: "Sparse6DecodeShuffled", G: gj, M: sparse6Shuffled(r, gj)})
+		}
 		add(consIn{Fam: "Graph6DecodeOf", G: gj})
 		add(consIn{Fam: "Sparse6DecodeOf", G: gj})
 	}
